@@ -17,11 +17,20 @@ ElemOps == {"with_item", "update_item", "transform_item", "without_item"}
 IsCow(a) == "inplace" \in DOMAIN a /\ ~a.inplace
 Inter(x, y) == ToSet(x) \cap ToSet(y)
 
+\* attributes an action targets directly (everything else must be carried over untouched)
+Touched(CT, c, a) == IF a.op = "reset_top" THEN AttrSet(CT, c)
+                     ELSE (IF "attr" \in DOMAIN a THEN {a.attr} ELSE {}) \cup (IF a.op = "update_top" THEN KwNames(a.kw) ELSE {})
+                          \cup (IF a.op = "transform_top" THEN KwNames(a.kwf) ELSE {})
+
+\* the model is only asked about receivers whose state it can represent: an ill-typed pre-state (left behind by an earlier call, which is
+\* where it is reported) has no specified successor
+StepJ(e) == IF TypeOKObj(Scn[e.scn], e.pre) THEN Step(Scn[e.scn], e.pre, e.a) ELSE [val |-> e.pre, res |-> {"unspecified"}, same |-> TRUE, ret |-> PMissing]
+
 Failing(e) ==
   LET CT == Scn[e.scn] a == e.a cow == IsCow(a)
       fro == CT[e.pre.c].frozen dncc == CT[e.pre.c].dnc
       unchanged == EqV(e.pre, e.recv_post) /\ e.ids_same
-      d == Step(CT, e.pre, a)
+      d == StepJ(e)
       specified == "unspecified" \notin d.res
       fam == IF a.op \in ElemOps THEN "c06" ELSE "c05"
       got == IF e.same \/ a.op = "read" THEN e.recv_post ELSE e.result
@@ -31,6 +40,9 @@ Failing(e) ==
   \* (identity transforms hand the receiver's own object back: excluded by the property's quantifier)
   \cup (IF cow /\ ~dncc /\ e.res = "ok" /\ ~e.same /\ e.result_kind = "obj" /\ ~("f" \in DOMAIN a /\ a.f = "same")
            /\ ~(Inter(e.tok_res, e.tok_recv) \subseteq ToSet(e.tok_args) \cup ToSet(e.tok_dnc)) THEN {"c02_shared_mutable_state"} ELSE {})
+  \* attributes declared do_not_copy are carried into every copy by identity
+  \cup (IF cow /\ e.res = "ok" /\ ~e.same /\ e.result_kind = "obj" /\ "dnc_carried" \in DOMAIN e
+           /\ \E j \in 1..Len(e.dnc_carried) : e.dnc_carried[j].n \notin Touched(CT, e.pre.c, a) /\ ~e.dnc_carried[j].same THEN {"c02_do_not_copy_attribute_duplicated"} ELSE {})
   \* a copy-on-write call that changes something must not hand back the receiver itself
   \cup (IF cow /\ ~dncc /\ ~fro /\ specified /\ d.res = {"ok"} /\ ~d.same /\ e.res = "ok" /\ e.same THEN {"c02_result_is_receiver"} ELSE {})
   \cup (IF ~TypeOKObj(CT, e.recv_post) \/ (e.result_kind = "obj" /\ e.result.c \in DOMAIN CT /\ ~TypeOKObj(CT, e.result))
@@ -57,10 +69,10 @@ Failing(e) ==
 
 F == [i \in 1..N |-> Failing(Events[i])]
 BadIdx == {i \in 1..N : F[i] # {}}
-Bad == UNION {{[i |-> i, c |-> c, d |-> ToString(Step(Scn[Events[i].scn], Events[i].pre, Events[i].a).res)] : c \in F[i]} : i \in BadIdx}
+Bad == UNION {{[i |-> i, c |-> c, d |-> ToString(StepJ(Events[i]).res)] : c \in F[i]} : i \in BadIdx}
 Cnt(P(_)) == Cardinality({i \in 1..N : P(Events[i])})
 Ante == [cow |-> Cnt(LAMBDA e : IsCow(e.a)), raised |-> Cnt(LAMBDA e : e.res # "ok"),
-         specified |-> Cnt(LAMBDA e : "unspecified" \notin Step(Scn[e.scn], e.pre, e.a).res),
+         specified |-> Cnt(LAMBDA e : "unspecified" \notin StepJ(e).res),
          changed |-> Cnt(LAMBDA e : e.res = "ok" /\ e.result_kind = "obj" /\ ~EqV(e.pre, e.result)),
          element |-> Cnt(LAMBDA e : e.a.op \in ElemOps), inplace |-> Cnt(LAMBDA e : ~IsCow(e.a))]
 ASSUME JsonSerialize(IOEnv.VERIF_OUT, <<[bad |-> SetToSeq(Bad), n |-> N, ante |-> Ante]>>)
